@@ -324,6 +324,15 @@ func runProperty(eng *Engine, prop, tier string, timeout int, findings []Finding
 			continue
 		}
 		rep := eng.verifyFunc(fi, false)
+		if rep.Err != "" && prop == "C11" && strings.Contains(rep.Err, ": spec: ") {
+			// the function's contract no longer binds (e.g. a field it names was removed): the shared-state sweep does
+			// not need the contract - fall back to the zero-annotation form for this function (not for C10: without the
+			// loop invariants of the contract the safety obligations would fail for no reason)
+			if rep2 := eng.verifyFuncBare(fi); rep2.Err == "" {
+				res.Notes = append(res.Notes, shortFuncKey(k)+": contract does not bind ("+truncate(rep.Err, 120)+"); swept without it")
+				rep = rep2
+			}
+		}
 		reports = append(reports, rep)
 		if rep.Err != "" {
 			res.Outside[shortFuncKey(k)] = rep.Err
